@@ -591,21 +591,27 @@ STAT_KEYS = ["expected_error", "undefined", "exact", "tolerance", "oracle_ok", "
 N_JIT_QUICK, N_JIT_THOROUGH = 8, 160
 
 
-def start_compiled(ex, cases, n_jit):
+JIT_BUDGET_S = {"quick": 150, "thorough": 1000}
+
+
+def start_compiled(ex, cases, n_jit, budget=150):
     """The first n_jit cases also run compiled, one child per vectorizer kind (each distinct kernel / argument type
     signature costs seconds of numba compilation, so the volume runs interpreted)."""
     jit_idx = {}
     for i, c in enumerate(cases[:n_jit]):
         jit_idx.setdefault(c["kind"], []).append(i)
     # C.run_impl names its scratch files by (script, pid, millisecond): concurrent calls are staggered
-    return jit_idx, {k: ex.submit(delayed_impl, 0.05 * (j + 1), [cases[i] for i in ix])
+    return jit_idx, {k: ex.submit(delayed_impl, 0.05 * (j + 1), [cases[i] for i in ix], None, budget)
                      for j, (k, ix) in enumerate(sorted(jit_idx.items()))}
 
 
-def delayed_impl(delay, cases, env=None):
+def delayed_impl(delay, cases, env=None, budget=1800):
+    """The compiled runs are an extra execution mode on top of the interpreted volume: they get a wall-clock budget
+    (numba compilation time depends on the machine load); cases not reached within it are simply not compared
+    (rc 124 = budget exhausted, recorded in evidence; any other non-zero rc is a dead child and is reported)."""
     import time
     time.sleep(delay)
-    return C.run_impl("c03", cases, env)
+    return C.run_impl("c03", cases, env, timeout=budget)
 
 
 def collect_compiled(jit_idx, futs):
@@ -614,7 +620,10 @@ def collect_compiled(jit_idx, futs):
         rr, inf = f.result()
         jit_info[k] = inf
         for j, i in enumerate(jit_idx[k]):
-            jit[i] = rr[j] if rr is not None and j < len(rr) else {"err": "crash", "msg": inf["tail"][-300:]}
+            if rr is not None and j < len(rr):
+                jit[i] = rr[j]
+            elif inf["rc"] != 124:
+                jit[i] = {"err": "crash", "msg": inf["tail"][-300:]}
     return jit, jit_info
 
 
@@ -641,7 +650,7 @@ def run(ctx, replay=None):
         cases = list(CORPUS) + [gen_case(ctx.rng) for _ in range(n)]
     from concurrent.futures import ThreadPoolExecutor
     ex = ThreadPoolExecutor(max_workers=6)
-    jit_idx, futs = start_compiled(ex, cases, N_JIT_QUICK if ctx.quick else N_JIT_THOROUGH)
+    jit_idx, futs = start_compiled(ex, cases, N_JIT_QUICK if ctx.quick else N_JIT_THOROUGH, JIT_BUDGET_S[ctx.tier])
     # event-level correspondence (interpreted run only): small cases log every coo_append call in order
     n_ev = 0
     for c in cases:
@@ -694,7 +703,8 @@ def run(ctx, replay=None):
                 rj["ok"]["events"] = impl[i]["ok"]["events"]
             impl[i] = rj           # judge the compiled result where there is one
     ctx.coverage["modes"] = {"NUMBA_DISABLE_JIT=1": len(impl), "compiled": len(jit),
-                             "compiled_wall_s": {k: v["wall_s"] for k, v in jit_info.items()}}
+                             "compiled_wall_s": {k: v["wall_s"] for k, v in jit_info.items()},
+                             "compiled_budget_exhausted": sorted(k for k, v in jit_info.items() if v["rc"] == 124)}
     stats = {k: 0 for k in STAT_KEYS}
     corr_bad = []
     before = len(ctx.violations)
